@@ -60,13 +60,44 @@ static Path parsePath(const std::string& s)
 
 struct Tgt { Var* v; Var* parent; std::string err; };
 
+// the source operand of `p = q`, `p << q`, `p.extend(q)`: a const reference evaluated BEFORE the target path.
+// block/idx/key say which element of which block it designates (block == NULL: a root variable or the static none)
+struct SrcRef { const Var* v; const void* block; bool isKey; int idx; std::string key; };
+
+static bool bytesLess(const std::string& a, const std::string& b)
+{
+	size_t n = a.size() < b.size() ? a.size() : b.size();
+	int c = memcmp(a.data(), b.data(), n);
+	return c < 0 || (c == 0 && a.size() < b.size());
+}
+
+// would `(*cur)[step]` move the element the source reference designates? (reallocation of its block, or insertion
+// of a property at or before it) -- known finding autocreate-invalidates-source
+static bool invalidatesSource(const Var* cur, const Step& s, const SrcRef* src)
+{
+	if (!src || !src->block) return false;
+	if (cur->is(Var::ARRAY)) {
+		Info f = info(*cur);
+		return f.id == src->block && !s.isKey && s.i >= f.len && s.i + 1 > f.cap;
+	}
+	if (cur->is(Var::OBJ)) {
+		Info f = info(*cur);
+		if (f.id != src->block) return false;
+		std::string k = s.isKey ? s.k : str(s.i);
+		if (cur->has(S(k))) return false;
+		return f.len >= f.cap || bytesLess(k, src->key);
+	}
+	return false;
+}
+
 // root[s1][s2]... with the non-const operator[]; a step that would grow a shared block is refused (known finding)
-static Tgt resolveMut(const Path& p, bool guard)
+static Tgt resolveMut(const Path& p, bool guard, const SrcRef* src = NULL)
 {
 	Tgt t; t.v = slot[p.root]; t.parent = NULL;
 	for (size_t n = 0; n < p.steps.size(); n++) {
 		const Step& s = p.steps[n];
 		Var* cur = t.v;
+		if (guard && invalidatesSource(cur, s, src)) { t.err = "skip-source-moved"; return t; }
 		if (!s.isKey) {
 			if (cur->is(Var::ARRAY)) {
 				Info f = info(*cur);
@@ -94,18 +125,23 @@ static Tgt resolveMut(const Path& p, bool guard)
 	return t;
 }
 
-static const Var* resolveConst(const Path& p, std::string& err)
+static const Var* resolveConst(const Path& p, std::string& err, SrcRef* ref = NULL)
 {
 	const Var* cur = slot[p.root];
+	if (ref) { ref->block = NULL; ref->isKey = false; ref->idx = 0; ref->key.clear(); }
 	for (size_t n = 0; n < p.steps.size(); n++) {
 		const Step& s = p.steps[n];
 		if (!s.isKey) {
 			if (cur->is(Var::ARRAY) && s.i >= cur->length()) { err = "nopath"; return NULL; }
+			if (ref) { ref->block = cur->is(Var::ARRAY) ? info(*cur).id : NULL; ref->isKey = false; ref->idx = s.i; }
 			cur = &(*cur)[s.i];
 		}
-		else
+		else {
+			if (ref) { ref->block = (cur->is(Var::OBJ) && cur->has(S(s.k))) ? info(*cur).id : NULL; ref->isKey = true; ref->key = s.k; }
 			cur = &(*cur)[S(s.k)];
+		}
 	}
+	if (ref) ref->v = cur;
 	return cur;
 }
 
@@ -226,7 +262,7 @@ static std::string step(const Toks& t0)
 		Var::Type ty = Var::NONE;
 		if (k == "t") { if (n != 4) return "bad-op"; ty = typeOf(t[3], tok); if (!tok) return "bad-op"; }
 		else if (k == "d" || k == "f") { if (n != 5) return "bad-op"; }
-		else if (k == "i" || k == "u" || k == "l" || k == "b" || k == "s" || k == "c") { if (n != 4) return "bad-op"; }
+		else if (k == "i" || k == "u" || k == "l" || k == "L" || k == "UL" || k == "b" || k == "s" || k == "c") { if (n != 4) return "bad-op"; }
 		else return "bad-op";
 		Tgt g = resolveMut(p, guard);
 		if (!g.err.empty()) return g.err;
@@ -235,6 +271,8 @@ static std::string step(const Toks& t0)
 		if (k == "i") v = (int)num(t[3]);
 		else if (k == "u") v = (unsigned)num(t[3]);
 		else if (k == "l") v = (Long)num(t[3]);
+		else if (k == "L") v = (long)num(t[3]);
+		else if (k == "UL") v = (unsigned long)num(t[3]);
 		else if (k == "d") v = litD(t, 3);
 		else if (k == "f") v = (float)litD(t, 3);
 		else if (k == "b") v = (t[3] == "1");
@@ -246,23 +284,25 @@ static std::string step(const Toks& t0)
 	if (op == "setv" && n == 3) {
 		Path p = parsePath(t[1]), q = parsePath(t[2]);
 		if (!p.ok || !q.ok) return "bad-op";
-		Tgt g = resolveMut(p, guard);
-		if (!g.err.empty()) return g.err;
 		std::string err;
-		const Var* src = resolveConst(q, err);
+		SrcRef ref;
+		const Var* src = resolveConst(q, err, &ref); // const Var& s = q;  -- the source reference comes first
 		if (!src) return err;
+		Tgt g = resolveMut(p, guard, &ref);          // Var& t = p;
+		if (!g.err.empty()) return g.err;
 		if (g.parent && reaches(*src, info(*g.parent).id)) return "cyclic";
-		*g.v = *src;
+		*g.v = *src;                                 // t = s;
 		return "ok";
 	}
 	if (op == "app" && n == 3) {
 		Path p = parsePath(t[1]), q = parsePath(t[2]);
 		if (!p.ok || !q.ok) return "bad-op";
-		Tgt g = resolveMut(p, guard);
-		if (!g.err.empty()) return g.err;
 		std::string err;
-		const Var* src = resolveConst(q, err);
+		SrcRef ref;
+		const Var* src = resolveConst(q, err, &ref);
 		if (!src) return err;
+		Tgt g = resolveMut(p, guard, &ref);
+		if (!g.err.empty()) return g.err;
 		if (g.v->is(Var::ARRAY)) {
 			Info f = info(*g.v);
 			if (reaches(*src, f.id)) return "cyclic";
@@ -280,7 +320,7 @@ static std::string step(const Toks& t0)
 		if (!p.ok) return "bad-op";
 		const std::string& k = t[2];
 		if (k == "d" || k == "f") { if (n != 5) return "bad-op"; }
-		else if (k == "i" || k == "u" || k == "l" || k == "b" || k == "s" || k == "c") { if (n != 4) return "bad-op"; }
+		else if (k == "i" || k == "u" || k == "l" || k == "L" || k == "UL" || k == "b" || k == "s" || k == "c") { if (n != 4) return "bad-op"; }
 		else return "bad-op";
 		Tgt g = resolveMut(p, guard);
 		if (!g.err.empty()) return g.err;
@@ -292,6 +332,8 @@ static std::string step(const Toks& t0)
 		if (k == "i") v << (int)num(t[3]);
 		else if (k == "u") v << (unsigned)num(t[3]);
 		else if (k == "l") v << (Long)num(t[3]);
+		else if (k == "L") v << (long)num(t[3]);
+		else if (k == "UL") v << (unsigned long)num(t[3]);
 		else if (k == "d") v << litD(t, 3);
 		else if (k == "f") v << (float)litD(t, 3);
 		else if (k == "b") v << (t[3] == "1");
@@ -339,11 +381,12 @@ static std::string step(const Toks& t0)
 	if (op == "ext" && n == 3) {
 		Path p = parsePath(t[1]), q = parsePath(t[2]);
 		if (!p.ok || !q.ok) return "bad-op";
-		Tgt g = resolveMut(p, guard);
-		if (!g.err.empty()) return g.err;
 		std::string err;
-		const Var* src = resolveConst(q, err);
+		SrcRef ref;
+		const Var* src = resolveConst(q, err, &ref);
 		if (!src) return err;
+		Tgt g = resolveMut(p, guard, &ref);
+		if (!g.err.empty()) return g.err;
 		if (g.v->is(Var::OBJ) && src->is(Var::OBJ)) {
 			Info f = info(*g.v);
 			int newkeys = 0;
@@ -423,6 +466,8 @@ static std::string step(const Toks& t0)
 		if (c == "i") replaceSlot(k, new Var((int)num(t[3])));
 		else if (c == "u") replaceSlot(k, new Var((unsigned)num(t[3])));
 		else if (c == "l") replaceSlot(k, new Var((Long)num(t[3])));
+		else if (c == "L") replaceSlot(k, new Var((long)num(t[3])));
+		else if (c == "UL") replaceSlot(k, new Var((unsigned long)num(t[3])));
 		else if (c == "b") replaceSlot(k, new Var(t[3] == "1"));
 		else if (c == "s") { Exact e(unhex(t[3])); replaceSlot(k, new Var(String(e.p, (int)e.n))); }
 		else if (c == "c") { Exact e(unhex(t[3])); replaceSlot(k, new Var((const char*)e.p)); }
